@@ -83,7 +83,11 @@ func cloneCommand(cmd *cobra.Command, args []string) {
 		filter := buildFilepathFilter(cfg, includeArg, excludeArg, true)
 		if cloneFlags.NoCheckout || cloneFlags.Bare {
 			// If --no-checkout or --bare then we shouldn't check out, just fetch instead
-			fetchRef(ref.Name, filter, nil)
+			if !fetchRef(ref.Name, filter, nil) {
+				c := getAPIClient()
+				e := c.Endpoints.Endpoint("download", cfg.Remote())
+				Exit(tr.Tr.Get("error: failed to fetch some objects from '%s'", e.Url))
+			}
 		} else {
 			pull(filter)
 			err := postCloneSubmodules(args)
